@@ -9,7 +9,7 @@ import (
 
 func baseOpts() GenOpts {
 	o := GenOpts{MaxUnits: 10, MinUnits: 1, MaxFiles: 3, MaxStmts: 3, MaxRows: 4, MaxCols: 10, MaxTables: 3,
-		IgnorableGap: 6}
+		IgnorableGap: 6, Rare: true}
 	o.UnitWeights = [numUnitKinds]int{uTxXID: 6, uTxCommit: 3, uDDL: 2, uAutoRows: 2, uStmtDML: 1,
 		uTxRollback: 0, uUnknownStmt: 1, uIgnorable: 1, uRotate: 1}
 	o.Prof = genProfile{MaxStr: 24}
@@ -91,9 +91,9 @@ func genScenarioC01(t *Tape, thorough bool) *Scenario {
 			o.MaxUnits, o.MaxRows = 4, 2
 		}
 	}
-	h := GenHistory(hs, &o)
+	h := genHistoryFor(t, hs, &o)
 	cs := t.S("cfg")
-	sc := &Scenario{Hist: h, Start: pickStart(cs, h, true), ServerID: genServerID(cs)}
+	sc := &Scenario{Hist: h, Start: pickStart(cs, h, true), ServerID: replicaIDOf(t)}
 	sc.Attempts = []AttemptPlan{cleanAttempt(cs, t.S("policy"))}
 	return sc
 }
@@ -111,10 +111,10 @@ func genScenarioC02(t *Tape, thorough bool, forced []unitKind) *Scenario {
 	if forced != nil {
 		h = genHistoryForced(hs, &o, forced)
 	} else {
-		h = GenHistory(hs, &o)
+		h = genHistoryFor(t, hs, &o)
 	}
 	cs := t.S("cfg")
-	sc := &Scenario{Hist: h, Start: pickStart(cs, h, true), ServerID: genServerID(cs)}
+	sc := &Scenario{Hist: h, Start: pickStart(cs, h, true), ServerID: replicaIDOf(t)}
 	a := cleanAttempt(cs, t.S("policy"))
 	if cs.Chance(1, 2) {
 		a.Pacing = 1
@@ -158,9 +158,9 @@ func genScenarioC03(t *Tape, thorough bool) *Scenario {
 	if !thorough {
 		o.MaxCols = 6
 	}
-	h := GenHistory(hs, &o)
+	h := genHistoryFor(t, hs, &o)
 	cs := t.S("cfg")
-	sc := &Scenario{Hist: h, Start: pickStart(cs, h, true), ServerID: genServerID(cs)}
+	sc := &Scenario{Hist: h, Start: pickStart(cs, h, true), ServerID: replicaIDOf(t)}
 	if cs.Chance(1, 3) {
 		// replica crash at an arbitrary point of the stream (the Streamer is abandoned),
 		// then a new Streamer starts from the last label the handler recorded
@@ -193,7 +193,7 @@ func genScenarioC08(t *Tape, thorough bool) *Scenario {
 		o.Prof.BigChance, o.Prof.BigMax = 5, 270000
 		o.MaxUnits = 5
 	}
-	h := GenHistory(hs, &o)
+	h := genHistoryFor(t, hs, &o)
 	sc := &Scenario{Hist: h, Start: pickStart(cs, h, true), ServerID: 1001}
 	a := cleanAttempt(cs, t.S("policy"))
 	a.Pacing = cs.Weighted(3, 1, 2) // mostly far ahead: later packets arrive while the handler holds earlier ones
@@ -212,7 +212,7 @@ func genScenarioC15(t *Tape, thorough bool) *Scenario {
 	o.CountChange = true
 	o.UnitWeights = [numUnitKinds]int{uTxXID: 6, uTxCommit: 2, uDDL: 1, uAutoRows: 3, uStmtDML: 0,
 		uTxRollback: 0, uUnknownStmt: 0, uIgnorable: 1, uRotate: 1}
-	h := GenHistory(hs, &o)
+	h := genHistoryFor(t, hs, &o)
 	cs := t.S("cfg")
 	sc := &Scenario{Hist: h, Start: pickStart(cs, h, true), ServerID: 1001}
 	if cs.Chance(1, 3) {
@@ -231,14 +231,24 @@ func genScenarioC15(t *Tape, thorough bool) *Scenario {
 // ---------------------------------------------------------------------------
 // fault families (C04, C05, C06, C07, C17)
 
+// sentinelMessages equal or contain the texts of errors the library and the
+// driver use internally to classify how a stream ended; a master (or a proxy
+// in front of it) may send any text.
+var sentinelMessages = []string{"context canceled", "rpc error: code = Canceled desc = context canceled",
+	"context deadline exceeded", "stream reached EOF", "EOF", "unexpected EOF", "invalid connection",
+	"driver: bad connection", "commands out of sync. You can't run this command now", "busy buffer", "<nil>",
+	"readBinlogEvent reach end oriErr: stream reached EOF"}
+
 var errMessages = []string{"Could not find first log file name in binary log index file",
 	"binlog truncated in the middle of event; consider out of disk space on master",
 	"Slave has more GTIDs than the master has", "", "x", "log event entry exceeded max_allowed_packet; Increase max_allowed_packet on master"}
 
 func genErrMsg(s *Stream) string {
-	switch s.Weighted(3, 2) {
+	switch s.Weighted(3, 2, 2) {
 	case 0:
 		return errMessages[s.N(len(errMessages))]
+	case 2:
+		return sentinelMessages[s.N(len(sentinelMessages))]
 	default:
 		n := s.N(200)
 		if s.Chance(1, 10) {
@@ -258,6 +268,15 @@ func genErrMsg(s *Stream) string {
 // predicate: fewer than 19 bytes, or a length field that differs from the
 // buffer length).
 func invalidPayload(s *Stream, h *History) []byte {
+	p := invalidPayloadRaw(s, h)
+	if len(p) >= 9 && h.replicaID != 0 && s.Chance(1, 3) {
+		// the server-id field of the malformed packet names the replica itself
+		p[5], p[6], p[7], p[8] = byte(h.replicaID), byte(h.replicaID>>8), byte(h.replicaID>>16), byte(h.replicaID>>24)
+	}
+	return p
+}
+
+func invalidPayloadRaw(s *Stream, h *History) []byte {
 	pickEvent := func() []byte {
 		f := h.Files[s.N(len(h.Files))]
 		return append([]byte(nil), f.Events[s.N(len(f.Events))].Raw...)
@@ -383,10 +402,10 @@ type faultEmphasis struct {
 
 func genFaultScenario(t *Tape, o *GenOpts, em faultEmphasis) *Scenario {
 	hs := t.S("hist")
-	h := GenHistory(hs, o)
+	h := genHistoryFor(t, hs, o)
 	cs := t.S("cfg")
 	fs := t.S("fault")
-	sc := &Scenario{Hist: h, Start: pickStart(cs, h, true), ServerID: genServerID(cs)}
+	sc := &Scenario{Hist: h, Start: pickStart(cs, h, true), ServerID: replicaIDOf(t)}
 	if em.Timeout {
 		sc.ReadTimeout = cs.Chance(1, 3)
 	}
@@ -457,4 +476,22 @@ func describeScenario(sc *Scenario) map[string]interface{} {
 		"files":  files, "units": strings.Join(units, " "), "start": sc.Start.String(),
 		"server_id": sc.ServerID, "attempts": atts, "scribble": sc.Scribble, "read_timeout": sc.ReadTimeout,
 	}
+}
+
+// replicaIDOf draws (once per tape) the server id the replica announces.
+func replicaIDOf(t *Tape) uint32 {
+	if t.replicaSet {
+		return t.replicaID
+	}
+	t.replicaID = genServerID(t.S("replica"))
+	t.replicaSet = true
+	return t.replicaID
+}
+
+// genHistoryFor generates the history knowing the replica's own server id.
+func genHistoryFor(t *Tape, hs *Stream, o *GenOpts) *History {
+	o.ReplicaID, o.HaveReplica = replicaIDOf(t), true
+	h := GenHistory(hs, o)
+	h.replicaID = o.ReplicaID
+	return h
 }
